@@ -22,7 +22,7 @@ def build_glue():
 
 def run(tier):
     t0 = time.time()
-    budget = float(os.environ.get('VERIF_BUDGET_S', '170' if tier == 'quick' else '1500'))
+    budget = float(os.environ.get('VERIF_BUDGET_S', '300' if tier == 'quick' else '3000'))
     deadline = int(t0 + budget)
     rtbin = mcdrive.build_mc(rt=True)
     mcbin = mcdrive.build_mc()
